@@ -1,16 +1,17 @@
 (** extraction of the MULgraph model: one case per line.
       W <geo>          model write          -> OK <hex bytes> | RAISE <exn>
       R <hex bytes>    model read           -> OK <geo> | RAISE <exn>
-      F <geo>          hypotheses           -> wf=<0|1> nwf=<0|1> rt=<0|1> idemok=<0|1> nidem=<0|1> idem=<0|1>
-                         wf / nwf / idemok / nidem: the boolean hypotheses of the theorems (read-back, fits, field-level re-format, arithmetic)
+      F <geo>          hypotheses           -> wf=<0|1> nwf=<0|1> rt=<0|1> idemok=<0|1> nidem=<0|1> idem=<0|1> namesok=<0|1> names=<0|1>
+                         wf / nwf / idemok / nidem (= aidem_ok) / namesok: the boolean hypotheses of the theorems (read-back, fits, field-level re-format, arithmetic, name lists)
                          rt:   read (write g) = Ok (canon g)  (evaluated, as the theorem says when wf=1)
                          idem: write (canon g) = write g      (evaluated, as the theorem says when wf=1 and idemok=1)
+      N <geo>          derived name lists   -> OK <hex names ,>|<hex:hex pairs ,> | RAISE <exn>
       X <op> a b       double arithmetic    -> neg:m:e
     <geo> is a TAB-separated token stream (see [geo_of_tokens]); reals are neg:m:e. *)
 From Coq Require Import Ascii String List Bool Arith ZArith NArith.
 From PTBase Require Import Exn PyStr PyNum PyVal Fmt FixedFormat Wire.
 From Gen Require Import GenTables GenMulgrid.
-From P Require Import Flt Lines MulgridIO RoundTrip Header Idem Fields Natural NatIdem.
+From P Require Import Flt Lines MulgridIO RoundTrip Header Idem Fields Natural NatIdem Canon NameLists HdrIdem.
 Import ListNotations.
 
 Definition colon : ascii := ":"%char.
@@ -162,6 +163,18 @@ Definition show_geo (g : geo) : str :=
       flat_map (fun w => [hex (w_name w); show_nat (length (w_pos w))] ++
                          flat_map (fun p => [show_dy (fst (fst p)); show_dy (snd (fst p)); show_dy (snd p)]) (w_pos w)) (g_wells g))%list.
 
+(** the two derived name lists: hex names joined by ',', pairs by ':', the lists by '|' *)
+Definition comma : ascii := ","%char.
+Fixpoint join_c (c : ascii) (l : list str) : str :=
+  match l with [] => [] | [a] => a | a :: r => app a (c :: join_c c r) end.
+Definition show_names (g : geo) : str :=
+  match block_name_list (geom_of g), block_connection_name_list (geom_of g) with
+  | Ok ns, Ok cs => app (s2l "OK ") (app (join_c comma (map hex ns))
+                      ("|"%char :: join_c comma (map (fun p => app (hex (fst p)) (colon :: hex (snd p))) cs)))
+  | Raise e, _ => app (s2l "RAISE ") (show_exn e)
+  | _, Raise e => app (s2l "RAISE ") (show_exn e)
+  end.
+
 Definition res_eqb (a b : res str) : bool :=
   match a, b with
   | Ok x, Ok y => str_eqb x y
@@ -192,7 +205,14 @@ Definition run_case (line : str) : str :=
                       | Raise _ => false end in
             let idem := res_eqb (write (canon g)) w in
             app (s2l "wf=") (app (show_bool (wf g)) (app (s2l " nwf=") (app (show_bool (nwf g)) (app (s2l " rt=") (app (show_bool rt)
-              (app (s2l " idemok=") (app (show_bool (idem_ok g)) (app (s2l " nidem=") (app (show_bool (nidem_ok g)) (app (s2l " idem=") (show_bool idem)))))))))))
+              (app (s2l " idemok=") (app (show_bool (idem_ok g)) (app (s2l " nidem=") (app (show_bool (aidem_ok g)) (app (s2l " idem=") (app (show_bool idem)
+              (app (s2l " namesok=") (app (show_bool (hdr_ok (g_hdr g) && str_eqb (h_type (canon_header (g_hdr g))) (s2l supported_type) && names_canonical g && cmp_ok g))
+              (app (s2l " names=") (show_bool (str_eqb (show_names (canon g)) (show_names g)))))))))))))))))
+        end
+      else if str_eqb k (s2l "N") then
+        match geo_of_tokens args with
+        | None => s2l "BADCASE"
+        | Some g => show_names g
         end
       else if str_eqb k (s2l "X") then
         match args with
